@@ -69,6 +69,23 @@ def discharge(S, ob, leaf_types=None, invariants=None):
         elif op == "Mul":
             c = [ra[0] * rb[0], ra[0] * rb[1], ra[1] * rb[0], ra[1] * rb[1]]
             r = (min(c), max(c))
+        elif op in ("Shr", "Shl"):
+            # the overflow check of a shift is on the shift amount: it must be below the bit width of the operand
+            if ty is None:
+                # MIR states the check as `amount < BITS`: read BITS off the asserted comparison, else the operand type
+                for at in (bdd.support(cond[1]) if cond is not None and cond[0] == "b" else []):
+                    if at[0] == "icmp" and at[1] == "Lt" and at[3][0] == "int" and at[3][1] in (8, 16, 32, 64, 128):
+                        ty = {8: "u8", 16: "u16", 32: "u32", 64: "u64", 128: "u128"}[at[3][1]]
+            if ty is None and a[0] == "icast":
+                ty = a[3]
+            if ty is None:
+                t_a = iv.type_of(a)
+                ty = t_a[1] if t_a and t_a[0] == "prim" else None
+            tr0 = INT_RANGES.get(ty)
+            bits = (tr0[1] - tr0[0]).bit_length() if tr0 else None
+            if bits and rb[0] >= 0 and rb[1] < bits:
+                return True, "shift amount in [%d, %d] below %d bits" % (rb[0], rb[1], bits), iv.used_invariants
+            return False, "shift amount [%d, %d] can reach the bit width of %s" % (rb[0], rb[1], ty), iv.used_invariants
         else:
             return False, "unsupported checked operator %s" % op, iv.used_invariants
         tr = INT_RANGES.get(ty)
@@ -115,6 +132,14 @@ def discharge(S, ob, leaf_types=None, invariants=None):
         if isinstance(n, int) and ri[0] >= 0 and ri[1] < n:
             return True, "index in [%d, %d] below length %d" % (ri[0], ri[1], n), iv.used_invariants
         return False, "index range [%d, %d] vs length %s" % (ri[0], ri[1], n), iv.used_invariants
+    if kind == "AllocSize":
+        sz = ob["ops"][0]
+        if sz[0] in ("int", "cparam") or (sz[0] == "icast" and sz[1][0] in ("int", "cparam")):
+            return True, "allocation of a constant / const-generic number of elements", set()
+        r = iv.range(sz)
+        if r[1] <= 1 << 20:
+            return True, "allocation bounded by %d elements" % r[1], iv.used_invariants
+        return False, "allocation size not bounded by a constant", iv.used_invariants
     if kind == "PushFull":
         # push into a fixed-capacity vector inside a loop over a collection of the same length, starting empty,
         # one push per iteration: at iteration i the vector holds i < capacity elements
